@@ -81,6 +81,36 @@ def static_module_cond(mod, test, env=None):
     """Value of a module-level condition that is fixed for the installed NumPy: a NumpyVersion / __version__
     comparison, or `NAME is (not) None` for a NAME whose live binding is known (env of a registration helper
     first, then the module-level bindings collected so far).  None when not decidable."""
+    if isinstance(test, ast.Call) and isinstance(test.func, ast.Name) and test.func.id == "issubclass" and len(test.args) == 2 and not test.keywords:
+        # issubclass(<literal type>, <literal type(s)>): decided on the real class hierarchy of Python / NumPy
+        def cls_of(e):
+            if env is not None and isinstance(e, ast.Name) and e.id in env:
+                e = getattr(env[e.id], "expr", env[e.id])
+            if not isinstance(e, (ast.Name, ast.Attribute)):
+                return None
+            r = mod.repo.resolve_expr(mod, e) if getattr(mod, "repo", None) is not None else None
+            q = getattr(r, "qual", None)
+            if q is None or getattr(r, "kind", None) not in ("ext", "wrapped"):
+                return None
+            if getattr(r, "kind", None) == "wrapped":
+                q = "numpy." + r.name
+            import builtins as _b, importlib
+
+            root, _, rest = q.partition(".")
+            try:
+                obj = _b if root == "builtins" else importlib.import_module(root) if root in ("numpy",) else None
+                for part in rest.split("."):
+                    obj = getattr(obj, part)
+            except Exception:
+                return None
+            return obj if isinstance(obj, type) else None
+
+        a = cls_of(test.args[0])
+        bs = test.args[1].elts if isinstance(test.args[1], (ast.Tuple, ast.List)) else [test.args[1]]
+        b = [cls_of(x) for x in bs]
+        if a is None or any(x is None for x in b):
+            return None
+        return issubclass(a, tuple(b))
     if isinstance(test, ast.UnaryOp) and isinstance(test.op, ast.Not):
         v = static_module_cond(mod, test.operand, env)
         return None if v is None else (not v)
